@@ -271,7 +271,7 @@ func (c *Ctx) headerWrappers() map[*types.Func]int {
 					if fn == nil {
 						continue
 					}
-					if k, ok := isBase(fn); ok && k < len(ce.Args) && identObj(info, ce.Args[k]) == pv {
+					if k, ok := isBase(fn); ok && k < len(ce.Args) && identObj(info, unclamp(info, ce.Args[k])) == pv {
 						hit = true
 					}
 				}
@@ -518,9 +518,16 @@ func (a *ownAnalysis) sliceProvOf(e ast.Expr, depth int) *sliceProv {
 						}
 					}
 				} else {
-					for _, l := range s.Lhs {
+					for i, l := range s.Lhs {
 						if identObj(a.info, l) == o {
 							n++
+							// x, err = helper(...): the helper's i-th result is a slice it allocated
+							if ce, ok := ast.Unparen(s.Rhs[0]).(*ast.CallExpr); ok && len(s.Rhs) == 1 {
+								if fn := originOf(Callee(a.info, ce)); fn != nil && a.c.freshSliceResult(fn, i) {
+									p.fresh = true
+									continue
+								}
+							}
 							p.unknown = true
 						}
 					}
@@ -608,6 +615,10 @@ func (a *ownAnalysis) sliceProvOf(e ast.Expr, depth int) *sliceProv {
 			// a same-package view helper: every return is a (re)slice of one slice parameter;
 			// the result borrows what that argument borrows and is clamped only if every
 			// return is a three-index reslice with max == high (or clampCap)
+			if a.c.freshSliceResult(fn, 0) {
+				p.fresh = true
+				return p
+			}
 			if idx, clamped, ok := a.c.sliceHelperSummary(fn); ok && idx < len(x.Args) {
 				q := a.sliceProvOf(x.Args[idx], depth+1)
 				merge(q)
@@ -620,6 +631,52 @@ func (a *ownAnalysis) sliceProvOf(e ast.Expr, depth int) *sliceProv {
 	}
 	p.unknown = true
 	return p
+}
+
+// freshSliceResult: fn is a function of this module whose k-th result is a
+// slice and every return statement gives nil or a slice allocated during the
+// call (make, a composite literal, append onto such a slice) in that position.
+func (c *Ctx) freshSliceResult(fn *types.Func, k int) bool {
+	key := fmt.Sprintf("freshSliceResult:%s:%d", FuncName(fn), k)
+	if v, ok := c.memo[key].(bool); ok {
+		return v
+	}
+	c.memo[key] = false // recursion: assume not
+	fd := c.declOf[fn]
+	if fd == nil || fd.Body == nil || fn.Pkg() == nil || !strings.HasPrefix(fn.Pkg().Path(), modPath) {
+		return false
+	}
+	sig := fn.Type().(*types.Signature)
+	if k >= sig.Results().Len() {
+		return false
+	}
+	if _, isSlice := sig.Results().At(k).Type().Underlying().(*types.Slice); !isSlice {
+		return false
+	}
+	a := newOwnAnalysis(c, FuncUnit{fn, fd, c.pkgOf[fd]})
+	ok, nret := true, 0
+	ast.Inspect(fd.Body, func(n ast.Node) bool {
+		if _, isLit := n.(*ast.FuncLit); isLit {
+			return false
+		}
+		rs, isRet := n.(*ast.ReturnStmt)
+		if !isRet {
+			return true
+		}
+		nret++
+		if len(rs.Results) != sig.Results().Len() {
+			ok = false
+			return true
+		}
+		q := a.sliceProvOf(rs.Results[k], 0)
+		if !q.fresh || q.borrowed || q.unknown || q.otherField {
+			ok = false
+		}
+		return true
+	})
+	res := ok && nret > 0
+	c.memo[key] = res
+	return res
 }
 
 // sliceHelperSummary: fn returns, on every path, a reslice of its idx-th
@@ -1100,7 +1157,7 @@ func (c *Ctx) ownSites(u FuncUnit) []ownSite {
 						if sig := fn.Type().(*types.Signature); sig.Variadic() && argIdx == sig.Params().Len()-1 && !s.Ellipsis.IsValid() {
 							break // individual variadic arguments are packed into a fresh array
 						}
-						if wi, isW := c.headerWrappers()[u.Obj]; isW && identObj(info, arg) == u.Obj.Type().(*types.Signature).Params().At(wi) {
+						if wi, isW := c.headerWrappers()[u.Obj]; isW && identObj(info, unclamp(info, arg)) == u.Obj.Type().(*types.Signature).Params().At(wi) {
 							sites = append(sites, ownSite{"MUT.view", ord.next(fn.Name() + " over parameter"), s, Proved, "constructor wrapper: the obligation is checked at every call site of " + u.Name(), nil})
 							break
 						}
@@ -1185,6 +1242,118 @@ func exprShape(info *types.Info, e ast.Expr) string {
 	return s
 }
 
+// unclamp strips a clampCap(...) call around a slice expression.
+func unclamp(info *types.Info, e ast.Expr) ast.Expr {
+	if ce, ok := ast.Unparen(e).(*ast.CallExpr); ok && len(ce.Args) == 1 {
+		if f := originOf(Callee(info, ce)); f != nil && FuncName(f) == "lisp.clampCap" {
+			return ce.Args[0]
+		}
+	}
+	return e
+}
+
+// viewWrapperSummary: fn is a header wrapper (headerWrappers) that binds the
+// header it builds over its cells parameter to a local, gives that local the
+// seal of its *LVal parameter number src (`hdr.sealed = src.sealed` or
+// hdr.InheritSeal(src)) and returns it; clamps reports whether the wrapper
+// itself clamps the capacity of the cells.
+func (c *Ctx) viewWrapperSummary(fn *types.Func) (src int, clamps bool, ok bool) {
+	ci, isW := c.headerWrappers()[fn]
+	fd := c.declOf[fn]
+	if !isW || fd == nil || fd.Body == nil {
+		return 0, false, false
+	}
+	info := c.pkgOf[fd].TypesInfo
+	sig := fn.Type().(*types.Signature)
+	cellsParam := sig.Params().At(ci)
+	sealedFld := c.LookupField("lisp.LVal.sealed")
+	inherit := c.LookupMethod("lisp.LVal.InheritSeal")
+	var hdr types.Object
+	nctor := 0
+	ast.Inspect(fd.Body, func(n ast.Node) bool {
+		as, isAs := n.(*ast.AssignStmt)
+		if !isAs || len(as.Lhs) != 1 || len(as.Rhs) != 1 {
+			return true
+		}
+		ce, isCall := ast.Unparen(as.Rhs[0]).(*ast.CallExpr)
+		if !isCall {
+			return true
+		}
+		f := originOf(Callee(info, ce))
+		if f == nil {
+			return true
+		}
+		k := -1
+		switch FuncName(f) {
+		case "lisp.SExpr", "lisp.QExpr":
+			k = 0
+		case "lisp.Array":
+			k = 1
+		default:
+			if i, w := c.headerWrappers()[f]; w {
+				k = i
+			}
+		}
+		if k < 0 || k >= len(ce.Args) {
+			return true
+		}
+		if identObj(info, unclamp(info, ce.Args[k])) == cellsParam {
+			nctor++
+			hdr = identObj(info, as.Lhs[0])
+			clamps = unclamp(info, ce.Args[k]) != ce.Args[k]
+		}
+		return true
+	})
+	if nctor != 1 || hdr == nil {
+		return 0, false, false
+	}
+	paramIdx := func(e ast.Expr) int {
+		o := identObj(info, e)
+		for i := 0; i < sig.Params().Len(); i++ {
+			if sig.Params().At(i) == o && o != nil {
+				return i
+			}
+		}
+		return -1
+	}
+	src = -1
+	ast.Inspect(fd.Body, func(n ast.Node) bool {
+		switch x := n.(type) {
+		case *ast.AssignStmt:
+			if len(x.Lhs) == 1 && len(x.Rhs) == 1 {
+				if se, ok := ast.Unparen(x.Lhs[0]).(*ast.SelectorExpr); ok && FieldOfSelector(info, se) == sealedFld && identObj(info, se.X) == hdr {
+					if r, ok := ast.Unparen(x.Rhs[0]).(*ast.SelectorExpr); ok && FieldOfSelector(info, r) == sealedFld {
+						src = paramIdx(r.X)
+					} else {
+						src = -2
+					}
+				}
+			}
+		case *ast.CallExpr:
+			if originOf(Callee(info, x)) == inherit && len(x.Args) == 1 {
+				if se, ok := ast.Unparen(x.Fun).(*ast.SelectorExpr); ok && identObj(info, se.X) == hdr {
+					src = paramIdx(x.Args[0])
+				}
+			}
+		}
+		return true
+	})
+	if src < 0 {
+		return 0, false, false
+	}
+	// every return gives the header
+	allRet := true
+	ast.Inspect(fd.Body, func(n ast.Node) bool {
+		if rs, ok := n.(*ast.ReturnStmt); ok {
+			if len(rs.Results) != 1 || identObj(info, rs.Results[0]) != hdr {
+				allRet = false
+			}
+		}
+		return true
+	})
+	return src, clamps, allRet
+}
+
 // viewVerdict decides a header construction over borrowed cells.
 func (a *ownAnalysis) viewVerdict(fc *FCFG, u FuncUnit, call *ast.CallExpr, arg ast.Expr, p *sliceProv, stack []ast.Node,
 	ownerOK func(ast.Expr, ast.Node, []ast.Node) (bool, string)) (string, string) {
@@ -1201,9 +1370,26 @@ func (a *ownAnalysis) viewVerdict(fc *FCFG, u FuncUnit, call *ast.CallExpr, arg 
 	if allOwned {
 		return Proved, "cells belong to values this function owns or has shown unsealed / never-sealed"
 	}
-	// header bound to a variable that receives the seal of the source
 	sealedFld := a.c.LookupField("lisp.LVal.sealed")
 	inherit := a.c.LookupMethod("lisp.LVal.InheritSeal")
+	// a view-building wrapper that copies the seal of its source argument itself
+	if wfn := originOf(Callee(info, call)); wfn != nil {
+		if src, clamps, ok := a.c.viewWrapperSummary(wfn); ok && src < len(call.Args) {
+			same := len(p.owners) > 0
+			for _, x := range p.owners {
+				if pathKey(info, call.Args[src]) != pathKey(info, x) {
+					same = false
+				}
+			}
+			if same && (p.clamped || clamps) {
+				return Proved, "the wrapper " + wfn.Name() + " gives the view the seal of its source argument, which owns the cells, and the capacity is clamped"
+			}
+			if same {
+				return Undecided, "view header inherits the seal but its capacity is not clamped"
+			}
+		}
+	}
+	// header bound to a variable that receives the seal of the source
 	var hdr types.Object
 	if len(stack) >= 2 {
 		if as, ok := stack[len(stack)-2].(*ast.AssignStmt); ok && len(as.Lhs) == 1 {
